@@ -371,6 +371,13 @@ class Select(Suite):
                 c["objs"] = objs_json(objs)       # for the oracle only (the harness reads the repository)
                 c["window"] = rng.choice([0, 1, 1, 10, 10, 50])
                 order = list(range(len(objs)))
+                if len(order) > 2 and rng.random() < 0.45:
+                    # request only a part of the pack: stored deltas whose base is NOT among the objects to pack
+                    # (fixAndBreakChainsOne -> undeltify)
+                    for _ in range(rng.choice([1, 1, 2])):
+                        if len(order) > 2:
+                            order.pop(rng.randrange(len(order)))
+                    style += "-partial"
                 b = "reuse-" + style
             elif b == "dup":
                 objs = object_set(rng, "similar", fmt)
@@ -439,7 +446,7 @@ class Select(Suite):
             fmt = c.get("format", "sha1")
             objs = [(o["type"], D.expand(o["data"])) for o in c["objs"]]
             req = [G.obj_oid(*objs[k], fmt) for k in c["order"]]
-            want = sorted(set(req))          # exactly the requested objects, once each
+            want = sorted(set(req))          # exactly the requested objects, once each (also when only a part of a pack is requested)
             bad = idx_check(ctx, r, want, fmt, "s%d" % c["id"])
             if bad:
                 cls, why = bad
